@@ -359,17 +359,7 @@ class Check:
             if files is not None and fn not in files:
                 continue
             repl[os.path.join(REPO, pkg, "zz_verif_" + fn)] = os.path.join(hdir, fn)
-        pkgname = None
-        for fn in repl.values():
-            m = re.search(r"^package (\w+)", open(fn).read(), re.M)
-            if m and not m.group(1).endswith("_test"):
-                pkgname = m.group(1)
-        if pkgname is None:
-            raise Undecided("no in-package harness file in %s" % hdir)
-        vh = os.path.join(self.scratch, "vh_%s_test.go" % pkgname)
-        with open(vh, "w") as f:
-            f.write(open(os.path.join(VERIF, "tools", "vh_test.go.tmpl")).read().replace("PKGNAME", pkgname))
-        repl[os.path.join(REPO, pkg, "zz_verif_vh_test.go")] = vh
+        self._add_helpers(repl, pkg, hdir)
         for src, dst in (rewrites or {}).items():
             repl[src] = dst
         for src, dst in (extra_overlay or {}).items():
@@ -396,6 +386,22 @@ class Check:
             raise Undecided("harness %s -run %s wrote no output (test not matched?)\n%s" % (pkg, run, o[-2000:]))
         return out, o
 
+    def _add_helpers(self, repl, pkg, hdir):
+        """the generated vh helper, once per package name used by the harness
+        files (the package itself and/or its external test package)"""
+        names = set()
+        for fn in list(repl.values()):
+            m = re.search(r"^package (\w+)", open(fn).read(), re.M)
+            if m:
+                names.add(m.group(1))
+        if not names:
+            raise Undecided("no harness file in %s" % hdir)
+        for pkgname in names:
+            vh = os.path.join(self.scratch, "vh_%s_test.go" % pkgname)
+            with open(vh, "w") as f:
+                f.write(open(os.path.join(VERIF, "tools", "vh_test.go.tmpl")).read().replace("PKGNAME", pkgname))
+            repl[os.path.join(REPO, pkg, "zz_verif_vh_%s_test.go" % pkgname)] = vh
+
     def go_test_binary(self, pkg, files=None, rewrites=None, race=False):
         """Compile the test binary of REPO/<pkg> with the harness files overlaid
         (`go test -c`); returns its path.  Used for child processes that are
@@ -406,15 +412,7 @@ class Check:
         for fn in sorted(os.listdir(hdir)):
             if fn.endswith(".go") and (files is None or fn in files):
                 repl[os.path.join(REPO, pkg, "zz_verif_" + fn)] = os.path.join(hdir, fn)
-        pkgname = None
-        for fn in repl.values():
-            m = re.search(r"^package (\w+)", open(fn).read(), re.M)
-            if m and not m.group(1).endswith("_test"):
-                pkgname = m.group(1)
-        vh = os.path.join(self.scratch, "vh_%s_test.go" % pkgname)
-        with open(vh, "w") as f:
-            f.write(open(os.path.join(VERIF, "tools", "vh_test.go.tmpl")).read().replace("PKGNAME", pkgname))
-        repl[os.path.join(REPO, pkg, "zz_verif_vh_test.go")] = vh
+        self._add_helpers(repl, pkg, hdir)
         repl.update(rewrites or {})
         ov = os.path.join(self.scratch, "overlay%d.json" % self._n_go)
         with open(ov, "w") as f:
